@@ -78,18 +78,27 @@ def cleanup(d):
 
 def run_histories(exe, histories, timeout=600):
     inp = '\n'.join(json.dumps(h, ensure_ascii=False) for h in histories) + '\n'
-    p = subprocess.run([exe, 'history'], input=inp, capture_output=True, text=True, timeout=timeout, env=_env(99))
+    env = _env(99)
+    p = subprocess.run([exe, 'history'], input=inp, capture_output=True, text=True, timeout=timeout, env=env)
+    shutil.rmtree(env['XDG_DATA_HOME'], ignore_errors=True)
     if p.returncode != 0:
         raise DriverError('driver failed: ' + p.stderr[-2000:])
     return [json.loads(l) for l in p.stdout.splitlines() if l.strip()]
 
 
+_ctr = [0]
+_ctr_lock = __import__('threading').Lock()
+
+
 def _env(i=0):
+    with _ctr_lock:
+        _ctr[0] += 1
+        uniq = _ctr[0]
     env = dict(os.environ)
     env['VERIF_DATA_DIR'] = os.path.join(REPO, 'data')
     env['VERIF_SYNTH_LAYOUT'] = os.path.join(ROOT, 'data', 'synthetic_layout.json')
     env['VERIF_GEN_DIR'] = os.path.join(ROOT, 'build', 'gen')
-    env['XDG_DATA_HOME'] = '/tmp/riti-verif-ud-%d-%d' % (os.getpid(), i)
+    env['XDG_DATA_HOME'] = '/tmp/riti-verif-ud-%d-%d-%d' % (os.getpid(), uniq, i)
     return env
 
 
@@ -97,12 +106,13 @@ def run_bounded(exe, name, bound, shards=1, timeout=3600):
     import gen_keytable, gen_tables
     gen_keytable.main()
     gen_tables.main()
+    envs = [_env(i) for i in range(shards)]
     procs = [subprocess.Popen([exe, 'bounded', name, str(bound), str(i), str(shards)], stdout=subprocess.PIPE,
-                              stderr=subprocess.PIPE, text=True, env=_env(i)) for i in range(shards)]
+                              stderr=subprocess.PIPE, text=True, env=envs[i]) for i in range(shards)]
     outs = []
     for i, pr in enumerate(procs):
         o, e = pr.communicate(timeout=timeout)
-        shutil.rmtree('/tmp/riti-verif-ud-%d-%d' % (os.getpid(), i), ignore_errors=True)
+        shutil.rmtree(envs[i]['XDG_DATA_HOME'], ignore_errors=True)
         if pr.returncode != 0:
             # a crash of the process itself (stack overflow, abort) is a violation of "returns normally"
             raise DriverCrash('bounded %s: driver process died (exit %s): %s' % (name, pr.returncode, e[-1500:]))
